@@ -97,6 +97,24 @@ func main() {
 		rep.Finish()
 	}
 
+	// development aid: C13_DIRECTED=<substring> runs only the matching directed scripts and prints their results
+	if d := os.Getenv("C13_DIRECTED"); d != "" {
+		for i, sc := range directed() {
+			if !strings.Contains(sc.Src, d) {
+				continue
+			}
+			for _, wal := range []bool{false, true} {
+				cfg := runCfgs(false)[i%len(runCfgs(false))]
+				cfg.WAL = wal
+				r := runScript(sc, cfg)
+				b, _ := json.MarshalIndent(r, "", " ")
+				fmt.Fprintf(os.Stderr, "---- %s [%s]\n%s\n", sc.Src, cfg, b)
+				record(rep, sc, cfg, r)
+			}
+		}
+		rep.Finish()
+	}
+
 	// ---- 1. model checking ----
 	for _, st := range stages {
 		if args.Quick() && !st.quick {
